@@ -513,6 +513,51 @@ def equivAttrC (a b : Pen) (c : Int) : Bool := match PenAttr.ofCode? c with | so
 
 end Pen
 
+/-! ### `tickit_pen_new_attrs` -/
+
+/-- One variadic argument as the caller passed it. -/
+inductive VaArg
+  | int (v : Int)
+  | str (s : List UInt8)
+deriving DecidableEq, Repr, Inhabited
+
+namespace Pen
+open Gen.PenLayout
+
+/-- The loop of `tickit_pen_new_attrs` over the argument list (the named first parameter included).
+    `none` = undefined behaviour: `va_arg` with the wrong type or past the end of the list.  Note the quirk:
+    an attribute value without a type (`tickit_penattr_type` = −1) does not consume a value, so the value the
+    caller passed for it is read as the next attribute. -/
+def newAttrsGo (sc : Scanf) (p : Pen) : List VaArg → Option Pen
+  | [] => none
+  | .str _ :: _ => none
+  | .int a :: rest =>
+    if a < 1 then some p
+    else if a = TICKIT_PEN_FG_DESC ∨ a = TICKIT_PEN_BG_DESC then
+      match rest with
+      | .str s :: rest' =>
+        match PenAttr.ofCode? (a - 0x100) with
+        | some at' => newAttrsGo sc (setColourAttrDesc sc p at' s).2 rest'
+        | none => newAttrsGo sc p rest'
+      | _ => none
+    else
+      match PenAttr.ofCode? a with
+      | none => newAttrsGo sc p rest
+      | some at' =>
+        match rest with
+        | .int v :: rest' =>
+          match at'.type with
+          | .bool => newAttrsGo sc (p.setBoolAttr at' (v != 0)) rest'
+          | .int => newAttrsGo sc (p.setIntAttr at' v) rest'
+          | .colour => newAttrsGo sc (p.setColourAttr at' v) rest'
+        | _ => none
+termination_by l => l.length
+
+/-- `tickit_pen_new_attrs(attr, ...)`. -/
+def newAttrs (sc : Scanf) (args : List VaArg) : Option Pen := newAttrsGo sc Pen.new args
+
+end Pen
+
 /-! ### The pen object: value + freeze state + delivered change events -/
 
 /-- What `struct TickitPen` has beyond the value, as far as it is observable: `events` counts the
